@@ -39,7 +39,7 @@ use datafusion_common::{
     not_impl_err,
 };
 use datafusion_expr::function::{AccumulatorArgs, StateFieldsArgs};
-use datafusion_expr::utils::format_state_name;
+use datafusion_expr::utils::{AggregateOrderSensitivity, format_state_name};
 use datafusion_expr::{
     Accumulator, AggregateUDFImpl, Documentation, EmitTo, GroupsAccumulator, Signature,
     Volatility,
@@ -704,6 +704,12 @@ fn get_fixed_domain_state_field(
 }
 
 impl AggregateUDFImpl for ApproxDistinct {
+    fn order_sensitivity(&self) -> AggregateOrderSensitivity {
+        // The result does not depend on the input order: never request the ORDER BY
+        // columns as extra arguments or a sort
+        AggregateOrderSensitivity::Insensitive
+    }
+
     fn name(&self) -> &str {
         "approx_distinct"
     }
